@@ -661,3 +661,51 @@ def sender_exit(E):
         return
     E.cover('sender-ended')
     E.prove('sender:only_its_own_finaliser_runs[close notification and stream clean-up are the receiver\'s job, once]', order == ['finally_sender'])
+
+
+# --------------------------------------------------------------------------- client receiver: life cycle of the keepalive watchdog
+
+@harness('c15.client.receiver_listen', ['C15', 'C11', 'C17'], functions=[CLIENT + '._receiver_listen', 'rsocket/helpers.py::cancel_if_task_exists',
+                                                                      BASE + '._start_task_if_not_closing'],
+         assumptions=['asyncio: awaiting a task that was cancelled raises CancelledError in the awaiter once the task has ended',
+                      'RSocketBase._receiver_listen is used through its exit behaviours (returns / raises / is cancelled): c11.receiver_exit'])
+def client_receiver_listen(E):
+    """Every connection gets exactly one keepalive-timeout watchdog, started before frames are processed and cancelled on
+    every way the listener can end - so no watchdog of an old connection survives a reconnect and fires on the new one."""
+    sock, table, ctable = mk_client(E, _is_closing=False)
+    how = E.path.choice(4, 'listen-ends-by')
+    tasks = []
+    E.create_task_hook = lambda E_, t, coro: tasks.append((t, coro))
+    terr = E.make_exc(E.lookup('rsocket/exceptions.py::RSocketTransportError'))
+    started_before = []
+
+    def base_listen(E_, f, a, k):
+        started_before.append(len(tasks))
+        if how == 1:
+            raise PyExc(terr)
+        if how == 2:
+            E_.throw('CancelledError')
+        if how == 3:
+            E_.throw('ValueError', 'bug')
+        return aio.Awaitable('ready')
+    E.stubs[BASE + '._receiver_listen'] = base_listen
+
+    def on_suspend(E_, what):
+        kind, obj = what
+        if kind == 'future' and obj.attrs.get('cancel_requested'):
+            obj.attrs['state'] = 'cancelled'          # the cancelled watchdog ends; awaiting it raises CancelledError
+        return None
+    E.suspend_hook = on_suspend
+    escaped = None
+    try:
+        E.await_value(E.call(E.getattr(sock, '_receiver_listen'), []))
+    except PyExc as e:
+        escaped = e.value
+    E.cover('listener-ended')
+    P = E.prove
+    P('watchdog:exactly_one_started_per_connection_before_frames_are_processed',
+      len(tasks) == 1 and tasks[0][1].func.name == '_keepalive_timeout_task' and started_before == [1])
+    P('watchdog:cancelled_however_the_listener_ends', len(tasks) == 1 and tasks[0][0].attrs['cancel_requested'] is True)
+    P('watchdog:outcome_of_the_listener_is_passed_on_unchanged',
+      (how == 0 and escaped is None) or (how == 1 and escaped is terr) or (how == 2 and escaped is not None and escaped.cls.name == 'CancelledError')
+      or (how == 3 and escaped is not None and escaped.cls.name == 'ValueError'))
